@@ -73,6 +73,7 @@ for kind, it in items:
     print("%-40s %s" % (it[0], st))
     lines.append("| %s | %s | %s |" % (it[0], " ".join(it[1]), st))
     if st.startswith("ALARM-AS-DOCUMENTED"):
+        print("     detail:", [l for _, _, ls in d for l in ls][:4])
         print("     rules:", sorted({l.split(":", 1)[0].replace("  rule ", "") + ":" + l.split(":", 2)[1] for _, _, ls in d for l in ls if l.startswith("  rule ")}))
     if st != "SILENT" and not st.startswith(("ALARM-AS-DOCUMENTED", "SILENT (")):
         bad += 1
